@@ -30,6 +30,8 @@ FILES = ["parallel.h", "execution_impl.h", "execution_impl.cpp", "impl.h", "coll
 #   effect "indep":   an `if` whose condition and whole subtree only look at data that
 #                     the unchecked call cannot have written; a `return` inside it leaves with a complete object.
 ALLOW = [
+    (r"Boolean3::Result$", r"^if \( inP_ \. status_ != Manifold :: Error :: NoError && inQ_ \. status_ != Manifold :: Error :: NoError \)", "indep",
+     "reads both operands' statuses only; returns an empty Impl carrying their order-independent combination"),
     (r"Boolean3::Result$", r"^if \( inP_ \. status_ != Manifold :: Error :: NoError \)", "indep",
      "reads the operand's status only; returns an empty Impl carrying that status"),
     (r"Boolean3::Result$", r"^if \( inQ_ \. status_ != Manifold :: Error :: NoError \)", "indep",
